@@ -169,6 +169,23 @@ def to_number(value: JSValue) -> Union[int, float]:
     return float("nan")
 
 
+def to_integer(value: JSValue) -> int:
+    """Convert an argument to an integer (ToIntegerOrInfinity).
+
+    NaN becomes 0 and the value is truncated toward zero. Infinities are
+    clamped to +-2**53, which is beyond every valid index, length or count,
+    so callers can treat the result as an ordinary Python int.
+    """
+    n = to_number(value)
+    if isinstance(n, int):
+        return n
+    if math.isnan(n):
+        return 0
+    if math.isinf(n):
+        return 2**53 if n > 0 else -(2**53)
+    return int(n)
+
+
 def js_pow(base: Union[int, float], exponent: Union[int, float]) -> Union[int, float]:
     """JavaScript exponentiation (the ** operator and Math.pow)."""
     nan = float("nan")
